@@ -1050,6 +1050,18 @@ fn burst_graphs() -> Vec<(&'static str, usize, Vec<Op>)> {
         let pairs: Vec<(usize, usize)> = (0..half).map(|i| (i, half + i)).collect();
         out.push(("burst-pairs", n, plain_ops(n, &pairs)));
     }
+    // x -> z by a logic edge, y and z write the same type (Data edge y -> z), many unrelated roots:
+    // z may be yielded only when both x and y were dropped
+    for fillers in [33usize, 40, 70] {
+        let n = fillers + 3;
+        let mut ops = vec![f_op(0, vec![], vec![]), f_op(1, vec![], vec![0])];
+        for i in 0..fillers {
+            ops.push(f_op(2 + i, vec![], vec![]));
+        }
+        ops.push(f_op(n - 1, vec![], vec![0]));
+        ops.push(Op::L(0, n - 1));
+        out.push(("burst-conflict", n, ops));
+    }
     out
 }
 
@@ -1078,11 +1090,19 @@ fn gen_burst(g: &mut Gen) {
                         }
                     }
                     // drop everything that is held, in random order, without polling in between
+                    // (`burst-conflict`: function 0 first, the conflicting writer 1 is kept for the
+                    // round after)
                     let mut held = run.held_ids();
                     if held.is_empty() {
                         break;
                     }
                     g.rng.shuffle(&mut held);
+                    if family == "burst-conflict" && held.len() > 2 {
+                        held.retain(|&i| i != 1);
+                        if let Some(p) = held.iter().position(|&i| i == 0) {
+                            held.swap(0, p);
+                        }
+                    }
                     for i in held {
                         run.apply(&SEv::Drop(i));
                         evs.push(SEv::Drop(i));
@@ -1458,6 +1478,34 @@ fn gen_hist(g: &mut Gen) {
         }
         g.emit("hist", &ops, Body::H(runs));
     }
+    // the same (incomplete) run repeated many times on one graph value before it is observed:
+    // counts of runs that cross 2^8 and 2^16
+    let ks: &[usize] = match g.tier {
+        Tier::Quick => &[254, 255, 256, 65534, 65535, 65536],
+        Tier::Thorough => &[253, 254, 255, 256, 257, 511, 512, 65533, 65534, 65535, 65536, 65537],
+    };
+    for (j, &k) in ks.iter().enumerate() {
+        // a -> b, c alone; a fails: b is never processed
+        let ops = plain_ops(3, &[(0, 1)]);
+        let mut graph = must_build(&ops);
+        let api = [Api::TryForEach, Api::TryFold][j % 2];
+        let mut cfg = CallCfg::plain(api);
+        cfg.mutable = j % 3 != 2;
+        let mut evs = vec![ev(CallEvKind::Settle)];
+        continue_run(None, &mut graph, 3, &cfg, &[0], &mut evs);
+        let mut rep = vec![ev(CallEvKind::Repeat(k))];
+        rep.extend(evs.iter().cloned());
+        let mut cfg2 = CallCfg::plain(Api::ForEach);
+        cfg2.mutable = true;
+        let mut evs2 = vec![ev(CallEvKind::Settle)];
+        continue_run(None, &mut graph, 3, &cfg2, &[], &mut evs2);
+        g.emit(
+            "hist-many",
+            &ops,
+            // the observed run is run number k + 1 on this graph value
+            Body::H(vec![Run::Call(cfg, rep), Run::Call(cfg2, evs2)]),
+        );
+    }
 }
 
 // ---------------------------------------------------------------------------------------------
@@ -1478,7 +1526,8 @@ fn gen_pair(g: &mut Gen) {
             let mut sa = Sched::new();
             let mut sb = Sched::new();
             let mut live = [true, true];
-            let cap = 2 * (6 * n + 20);
+            let mut restarts = [0usize, 0usize];
+            let cap = 3 * (6 * n + 20);
             while (live[0] || live[1]) && evs.len() < cap {
                 let is_b = if live[0] && live[1] {
                     g.rng.chance(1, 2)
@@ -1491,7 +1540,20 @@ fn gen_pair(g: &mut Gen) {
                     (&mut ra, &a, &mut sa)
                 };
                 match step(g.rng, run, cfg, KNOBS_RAND, st) {
-                    None => live[is_b as usize] = false,
+                    None => {
+                        // this side is over: sometimes start a third (fourth) run on the same graph
+                        // while the other side is still in progress
+                        let other_live = live[1 - is_b as usize];
+                        if other_live && restarts[is_b as usize] < 2 && g.rng.chance(1, 2) {
+                            restarts[is_b as usize] += 1;
+                            run.finish();
+                            *run = CallRun::new(GRef::Shared(&graph), cfg);
+                            *st = Sched::new();
+                            evs.push((is_b, ev(CallEvKind::Restart)));
+                        } else {
+                            live[is_b as usize] = false;
+                        }
+                    }
                     Some(batch) => {
                         for e in batch {
                             run.apply(&e);
